@@ -86,10 +86,34 @@ fn other_item_types(vec: &[Necessity<i64>], other: &[Necessity<i64>], expect: &[
     None
 }
 
+/// a merge that is aborted by a panic inside the items' `PartialEq` (caught by the caller) must leave nothing behind
+/// that a later, ordinary merge on the same thread could see
+fn aborted_merge(k: usize) {
+    #[derive(Clone, Debug)]
+    struct Fragile(i64);
+    impl PartialEq for Fragile {
+        fn eq(&self, o: &Fragile) -> bool {
+            if self.0 == 1000 || o.0 == 1000 {
+                panic!("comparison refused");
+            }
+            self.0 == o.0
+        }
+    }
+    // every item of the first list finds its partner, then the last one (1000) makes the comparison panic
+    let n = 3 + k % 6;
+    let mut vec: Vec<Necessity<Fragile>> = (0..n as i64).map(|i| Necessity::Mandatory(Fragile(i))).collect();
+    vec.push(Necessity::Mandatory(Fragile(1000)));
+    let other: Vec<Necessity<Fragile>> = (0..n as i64).rev().map(|i| Necessity::Optional(Fragile(i))).collect();
+    let _ = std::panic::catch_unwind(std::panic::AssertUnwindSafe(|| merge_necessity(vec, other)));
+}
+
 pub fn replay(a: &Args) {
     let cases = read_lines(&a.req("cases"));
     let mut mismatches = Vec::new();
-    for c in &cases {
+    for (ci, c) in cases.iter().enumerate() {
+        if ci % 40 == 7 {
+            aborted_merge(ci / 40);
+        }
         let merged = merge_necessity(items(&c["vec"]), items(&c["other"]));
         if to_json(&merged) == c["merged"] {
             if let Some(ty) = other_item_types(&items(&c["vec"]), &items(&c["other"]), &merged) {
